@@ -185,9 +185,10 @@ def add_configs(tier):
     out = []
     ns = [3] if tier == 'quick' else [3, 4]
     for n in ns:
-        for ph in ['', 'gl']:
+        for ph in ['', 'gl'] + (['gls'] if tier != 'quick' and n == 3 else []):
             for bases in ['mol+mol', 'wt+wt', 'mol+wt', 'wt+mol']:
                 for op in ['add', 'sum', 'iadd', 'self', 'triple']:
+                    if ph == 'gls' and (op in ('self', 'triple', 'sum') or bases in ('wt+wt', 'wt+mol')): continue
                     if tier == 'quick' and bases != 'mol+mol' and op not in ('add', 'iadd'): continue
                     if op in ('self', 'triple') and bases in ('mol+wt', 'wt+mol'): continue
                     if op == 'triple' and ph and n == 4: continue
@@ -291,9 +292,10 @@ def sub_configs(tier):
     out = []
     ns = [3] if tier == 'quick' else [3, 4]
     for n in ns:
-        for ph in ['', 'gl']:
+        for ph in ['', 'gl'] + (['gls'] if tier != 'quick' and n == 3 else []):
             for bases in ['mol+mol', 'wt+wt', 'mol+wt', 'wt+mol']:
                 for op in ['sum-sub', 'sum-isub', 'isub']:
+                    if ph == 'gls' and bases in ('wt+wt', 'wt+mol'): continue
                     if tier == 'quick' and bases != 'mol+mol' and ph and op != 'sum-sub': continue
                     out.append({'name': f'n={n};ph={ph or "-"};basis={bases};op={op}', 'n': n, 'ph': ph, 'bases': bases, 'op': op})
     return out
@@ -564,10 +566,11 @@ def backwards(w, cfg):
     st = snap(res)['stoich']
     w.ensure('reversed reaction is normalised on its reactant', w.eq(st[prow * n + pidx], -1.))
     w.ensure('old reactant is a product of the reversed reaction', w.gt(st[rrow * n + ridx], 0.))
-    w.ensure('conversion of the reversed reaction', w.eq(res.X, Xa if Xnew is None else Xnew))
+    rX = res.X
+    w.ensure('conversion of the reversed reaction', w.eq(rX, Xa if Xnew is None else Xnew))
     poke(res)
     w.ensure('operand unchanged after mutating the result', same(w, pa, snap(a)))
-    w.canary('canary: reversed reaction has conversion X + 1', w.eq(res.X, Xa + 1.))
+    w.canary('canary: reversed reaction has conversion X + 1', w.eq(rX, Xa + 1.))
 
 
 # --------------------------------------------------------------------------- reaction sets: item <-> set sharing
@@ -577,15 +580,16 @@ def item_configs(tier):
     for cls in ['ParallelReaction', 'SeriesReaction']:
         for ph in ['', 'gl']:
             for via in ['index', 'iter', 'slice']:
-                for direction in ['item->set', 'set->item', 'setX->item']:
+                for direction in ['item->set', 'set->item', 'setX->item', 'item*=k', 'item/=k']:
                     if tier == 'quick' and cls == 'SeriesReaction' and (ph or via != 'index'): continue
+                    if tier == 'quick' and direction in ('item*=k', 'item/=k') and via != 'index': continue
                     if tier == 'quick' and via == 'slice' and ph: continue
                     out.append({'name': f'{cls};ph={ph or "-"};via={via};{direction}', 'cls': cls, 'ph': ph, 'via': via,
                                 'direction': direction})
     return out
 
 
-ITEM_FUNCS = [RXN + 'ReactionSet.__init__', RXN + 'ReactionSet.__getitem__', RXN + 'ReactionSet.__iter__', RXN + 'ReactionSet.X',
+ITEM_FUNCS = [RXN + 'Reaction.__imul__', RXN + 'Reaction.__itruediv__', RXN + 'ReactionSet.__init__', RXN + 'ReactionSet.__getitem__', RXN + 'ReactionSet.__iter__', RXN + 'ReactionSet.X',
               RXN + 'ReactionItem.__init__', RXN + 'ReactionItem.X', RXN + 'ParallelReaction._reaction',
               RXN + 'SeriesReaction._reaction', RXN + 'Reaction._reaction']
 
@@ -612,7 +616,14 @@ def set_item(w, cfg):
     w.ensure('item shows the conversion of the set', w.eq(item.X, Xs[i]))
     ensure_each(w, 'item acts like the reaction it stands for', act(item, vals, nrows, n), act(build(specs[i], Xs[i]), vals, nrows, n))
     x = w.real('x')
-    if cfg['direction'] == 'item->set':
+    if cfg['direction'] in ('item*=k', 'item/=k'):
+        # in-place scaling of an item of a set (added after seeded change C17_2): only that item's conversion changes
+        k = w.real('k', lo=0, lo_strict=True)
+        if cfg['direction'] == 'item*=k':
+            item *= k; x = Xs[i] * k
+        else:
+            item /= k; x = Xs[i] / k
+    elif cfg['direction'] == 'item->set':
         item.X = x
     elif cfg['direction'] == 'set->item':
         S.X[i] = x
